@@ -119,13 +119,23 @@ def impl(case):
         xs = np.array([float("nan") if v == "nan" else float(C.w2q(v)) for v in case["xs"]])
         try:
             r = lm(xs)
-            return {"labels": [int(v) for v in np.asarray(r).ravel()], "shape": list(np.shape(r))}
+            out = {"labels": [int(v) for v in np.asarray(r).ravel()], "shape": list(np.shape(r))}
+            # the same eight inputs as a 2-D batch in C order, Fortran order and as a transposed view: same labels, element by element
+            lay = []
+            for nm_, arr in (("C", xs.reshape(2, 4)), ("F", np.asfortranarray(xs.reshape(2, 4))), ("T", xs.reshape(4, 2).T)):
+                r2 = np.asarray(lm(arr))
+                want = np.asarray(r).reshape(2, 4) if nm_ != "T" else np.asarray(r).reshape(4, 2).T
+                lay.append([nm_, bool(r2.shape == (2, 4) and np.array_equal(r2, want))])
+            out["layouts"] = lay
+            return out
         except Exception as e:
             return {"eval_err": _err(e)}
     # selector
     sel = {}
     nout = case.get("nout", 2)
-    for lab, ax, bx, ay, by in case["sel"]:
+    off = case.get("label_offset", 0) if case["mapper"] != "array" else 0      # large, close-valued float labels (slice ids like 301002)
+    for lab0, ax, bx, ay, by in case["sel"]:
+        lab = lab0 + off
         if nout == 1:   # transforms with a single output
             sel[lab] = models.Mapping((0,), n_inputs=2) | models.Scale(float(C.w2q(ax))) | models.Shift(float(C.w2q(bx)))
         else:
@@ -136,7 +146,7 @@ def impl(case):
         lm = selector.LabelMapperArray(np.array(case["mask"]))
     else:
         # a generic LabelMapper whose "no label" is NaN: label looked up from a table along x, NaN outside of it
-        tab = models.Tabular1D(points=np.arange(len(case["xlabels"]), dtype=float), lookup_table=np.array(case["xlabels"], dtype=float),
+        tab = models.Tabular1D(points=np.arange(len(case["xlabels"]), dtype=float), lookup_table=np.array(case["xlabels"], dtype=float) + off,
                                method="nearest", bounds_error=False, fill_value=np.nan)
         lm = selector.LabelMapper(("x", "y"), tab, inputs_mapping=models.Mapping((0,), n_inputs=2))
     rs = selector.RegionsSelector(("x", "y"), ("a", "b")[:nout], selector=sel, label_mapper=lm, undefined_transform_value=undef_arg)
@@ -166,14 +176,14 @@ def impl(case):
             per.append({"err": _err(e)})
     res["per"] = per
     try:
-        res["labels"] = [0 if (v != v) else int(v) for v in np.asarray(lm(xs, ys), dtype=float).ravel()]
+        res["labels"] = [0 if (v != v) else (int(v) - off if int(v) != 0 else 0) for v in np.asarray(lm(xs, ys), dtype=float).ravel()]
     except Exception as e:
         res["labels_err"] = _err(e)
     si = []
     for lab in case["set_input"]:
         try:
-            t = rs.set_input(lab)
-            si.append("same" if t is sel.get(lab) else "other")
+            t = rs.set_input(lab + off if lab != 0 else lab)
+            si.append("same" if t is sel.get(lab + off if lab != 0 else lab) else "other")
         except Exception as e:
             si.append(_err(e))
     res["set_input"] = si
@@ -254,6 +264,8 @@ def oracle(case, res):
                         want = l
             if lab != want:
                 out.append(("dict_label", "input %s with keys %s atol %s got label %s, expected %s" % (v, case["keys"], case["atol"], lab, want)))
+        if any(not ok for _n, ok in res.get("layouts", [])):
+            out.append(("dict_layout", "the same inputs as a 2-D batch give other labels than as a flat one, by memory layout: %s" % res["layouts"]))
         return out[:3]
     # selector
     if "err" in res:
@@ -449,6 +461,8 @@ def gen(rng, tier):
             case["pts"] = [[rng.randrange(nx), rng.randrange(ny)] for _p in range(npts)]
         else:
             case["xlabels"] = [rng.choice([1, 2, 3, 4]) for _x in range(rng.randint(2, 6))]
+            if rng.random() < 0.5:
+                case["label_offset"] = 301000
             case["pts"] = [[rng.randint(-2, len(case["xlabels"]) + 1), rng.randint(0, 5)] for _p in range(npts)]
         case["shape"] = rng.choice({1: [[1]], 4: [[4], [2, 2]], 6: [[6], [2, 3]], 8: [[8], [2, 2, 2]]}[npts])
         yield case
